@@ -247,6 +247,10 @@ DispClause(st, R, D, i) ==
              ELSE DispClause(st, R, D, i + 1)
          ELSE "ExtraRequestDispatched"
 
+\* a target whose authority nobody validated: BaseRequest construction (url.host / url.port) raises
+\* inside RequestHandler.start(), the handler task dies, the connection is never answered nor closed
+KillerSoft(st) == HasSoft(st, "AbsTargetAuthorityAccepted") \/ HasSoft(st, "ConnectTargetUnchecked")
+                  \/ HasSoft(st, "AbsTargetExotic") \/ HasSoft(st, "TargetCTLAccepted")
 JudgeConn(st, q, n, e, cfg) ==
     LET fin == Final(st, n)
         R == FinalMsgs(st)
@@ -268,9 +272,11 @@ JudgeConn(st, q, n, e, cfg) ==
         THEN res("ServerOutputMalformed", <<>>, <<w.reason>>)       \* what the server wrote is itself well-framed
     ELSE IF dc # "" THEN res(dc, <<>>, <<>>)
     ELSE IF fin = "undecided" THEN res("", <<>>, <<"undecided">>)
+    ELSE IF fin = "reject" /\ nerr = 0 /\ ~e.closed /\ (PendingReject(st, q, n) \/ PendingOver(st, q, n, e, cfg))
+        THEN res("", <<>>, <<"RejectPending">>)
     ELSE IF fin = "reject" THEN
         IF ~e.closed THEN
-            IF Len(codes) = 0 /\ Len(D) = 0 /\ HasSoft(st, "AbsTargetAuthorityAccepted") THEN res("", <<"BadAuthorityKillsHandler">>, <<>>)
+            IF KillerSoft(st) THEN res("", <<"BadAuthorityKillsHandler">>, <<>>)
             ELSE res("MalformedNotClosed", <<>>, <<st.reason>>)
         ELSE IF nerr = 0 THEN res("MalformedNoErrorResponse", <<>>, <<st.reason>>)
         ELSE IF nerr > 1 THEN res("SeveralErrorResponses", <<>>, <<>>)
@@ -286,9 +292,11 @@ JudgeConn(st, q, n, e, cfg) ==
             ELSE IF st.phase = "tunnel" THEN res("", <<>>, <<"tunnel">>)
             ELSE res("ValidAnsweredWithError", <<>>, <<>>)
         ELSE IF Len(D) < Len(R) /\ ~(st.phase = "tunnel") THEN
-            IF HasSoft(st, "AbsTargetAuthorityAccepted") /\ Len(codes) = Len(D) THEN res("", <<"BadAuthorityKillsHandler">>, <<>>)
+            IF KillerSoft(st) /\ Len(codes) = Len(D) /\ ~e.closed THEN res("", <<"BadAuthorityKillsHandler">>, <<>>)
+            ELSE IF Len(st.soft) > 0 THEN res("", <<>>, <<"SoftZone">>)
             ELSE res("RequestNotDispatched", <<>>, <<>>)
-        ELSE IF Len(codes) < Len(R) /\ ~(st.phase = "tunnel") THEN res("RequestNotAnswered", <<>>, <<>>)
+        ELSE IF Len(codes) < Len(R) /\ ~(st.phase = "tunnel") THEN
+            IF Len(st.soft) > 0 THEN res("", <<>>, <<"SoftZone">>) ELSE res("RequestNotAnswered", <<>>, <<>>)
         ELSE res("", devNames, altNames)
 
 Judge(st, q, n, e, cfg) ==
@@ -302,20 +310,27 @@ Verd(e) == IF e.kind = "conn" THEN (LET c == ConnCodes(e) IN \E i \in 1..Len(c) 
 SameMsgs(a, b) ==
     IF a.kind = "conn" THEN a.dispatched = b.dispatched /\ ConnCodes(a) = ConnCodes(b)
     ELSE Effective(a.msgs) = Effective(b.msgs) /\ a.upgraded = b.upgraded /\ a.tail = b.tail /\ a.eofExc = b.eofExc
-PrefixMsgs(a, b) ==          \* a rejected earlier than b: what it delivered is a prefix
-    IF a.kind = "conn" THEN Len(a.dispatched) <= Len(b.dispatched) /\ a.dispatched = SubSeq(b.dispatched, 1, Len(a.dispatched))
+PrefixMsgs(a, b) ==          \* two rejected runs: what both delivered must be the same messages (heads)
+    IF a.kind = "conn" THEN
+        \A i \in 1..Min2(Len(a.dispatched), Len(b.dispatched)) :
+            a.dispatched[i].method = b.dispatched[i].method /\ a.dispatched[i].target = b.dispatched[i].target
     ELSE LET x == Effective(a.msgs) y == Effective(b.msgs) IN
          \A i \in 1..Min2(Len(x), Len(y)) : x[i].method = y[i].method /\ x[i].target = y[i].target /\ x[i].code = y[i].code
                                              /\ x[i].headers = y[i].headers
 GroupClause(st, q, n, evs, cfg) ==
-    LET dis == \E i, j \in 1..Len(evs) : evs[i].kind = evs[j].kind /\ Verd(evs[i]) # Verd(evs[j])
-        diff == \E i, j \in 1..Len(evs) : /\ evs[i].kind = evs[j].kind /\ ~Verd(evs[i]) /\ ~Verd(evs[j])
-                                           /\ ~SameMsgs(evs[i], evs[j])
-        pre == \E i, j \in 1..Len(evs) : /\ evs[i].kind = evs[j].kind /\ Verd(evs[i]) /\ Verd(evs[j])
-                                          /\ ~PrefixMsgs(evs[i], evs[j])
+    LET N == Len(evs)
+        codes == [i \in 1..N |-> IF evs[i].kind = "conn" THEN ConnCodes(evs[i]) ELSE <<>>]     \* computed once per event
+        vd == [i \in 1..N |-> IF evs[i].kind = "conn"
+                                THEN (\E k \in 1..Len(codes[i]) : codes[i][k] >= 400) \/ Len(evs[i].loopExc) > 0
+                                ELSE Verd(evs[i])]
+        same(i, j) == IF evs[i].kind = "conn" THEN evs[i].dispatched = evs[j].dispatched /\ codes[i] = codes[j]
+                      ELSE SameMsgs(evs[i], evs[j])
+        dis == \E i, j \in 1..N : i < j /\ evs[i].kind = evs[j].kind /\ vd[i] # vd[j]
+        diff == \E i, j \in 1..N : i < j /\ evs[i].kind = evs[j].kind /\ ~vd[i] /\ ~vd[j] /\ ~same(i, j)
+        pre == \E i, j \in 1..N : i < j /\ evs[i].kind = evs[j].kind /\ vd[i] /\ vd[j] /\ ~PrefixMsgs(evs[i], evs[j])
     IN IF ~dis /\ ~diff /\ ~pre THEN [bad |-> "", devs |-> <<>>]
        ELSE IF dis /\ ~diff /\ ~pre /\ PendingReject(st, q, n) THEN [bad |-> "", devs |-> <<>>]   \* noticed early vs. still pending
-       ELSE IF dis /\ ~diff /\ ~pre /\ \A i \in 1..Len(evs) : (evs[i].kind = "parse" /\ ~Verd(evs[i])) => PendingOver(st, q, n, evs[i], cfg)
+       ELSE IF dis /\ ~diff /\ ~pre /\ \A i \in 1..N : ~vd[i] => PendingOver(st, q, n, evs[i], cfg)
             THEN [bad |-> "", devs |-> <<>>]                                                       \* one read of slack
        ELSE IF dis /\ ((st.phase = "closed" /\ st.tailFrom <= n) \/ \E i \in 1..Len(evs) : evs[i].excAfterClose)
             THEN [bad |-> "", devs |-> <<"DataAfterCloseSegDependent">>]
